@@ -26,6 +26,9 @@ theorem getD_set_gen {α : Type} (l : List α) (i k : Nat) (x d : α) :
     · simp [h2, List.getElem?_eq_none (Nat.le_of_not_lt h2)]
   · simp [h]
 
+theorem getD_default {α : Type} (l : List α) (i : Nat) (d : α) (h : l.length ≤ i) : l.getD i d = d := by
+  simp [List.getD_eq_getElem?_getD, List.getElem?_eq_none h]
+
 def Rect (mat : Mat) (n m : Nat) : Prop := mat.length = n ∧ ∀ row ∈ mat, row.length = m
 
 theorem Rect.row_length {mat : Mat} {n m : Nat} (h : Rect mat n m) {r : Nat} (hr : r < n) :
@@ -273,16 +276,16 @@ theorem findPivot_bounds (mat : Mat) (start n m : Nat) (hn : nrows mat = n) (hm 
     (findPivot mat start).1 < n ∧ (findPivot mat start).2 < m := by
   unfold findPivot
   simp only [hn, hm]
-  have key : ∀ st : Nat × Nat × Int, (st.1 < n ∧ st.2.1 < m) →
+  have key : ∀ st : Nat × Nat × Option Int, (st.1 < n ∧ st.2.1 < m) →
       (((List.range' start (n - start)).foldl
         (fun st r => (List.range' start (m - start)).foldl (pivotStep mat r) st) st).1 < n ∧
        ((List.range' start (n - start)).foldl
         (fun st r => (List.range' start (m - start)).foldl (pivotStep mat r) st) st).2.1 < m) := by
     intro st hst
-    apply foldl_preserves (fun (st : Nat × Nat × Int) => st.1 < n ∧ st.2.1 < m) _
+    apply foldl_preserves (fun (st : Nat × Nat × Option Int) => st.1 < n ∧ st.2.1 < m) _
       (fun r => r < n) _ _ _ st hst
     · intro st r hr hst
-      apply foldl_preserves (fun (st : Nat × Nat × Int) => st.1 < n ∧ st.2.1 < m) _
+      apply foldl_preserves (fun (st : Nat × Nat × Option Int) => st.1 < n ∧ st.2.1 < m) _
         (fun c => c < m) _ _ _ st hst
       · intro st c hc hst
         unfold pivotStep
@@ -292,7 +295,7 @@ theorem findPivot_bounds (mat : Mat) (start n m : Nat) (hn : nrows mat = n) (hm 
         · exact hst
       · intro c hc; rw [List.mem_range'_1] at hc; omega
     · intro r hr; rw [List.mem_range'_1] at hr; omega
-  exact key (start, start, isizeMax) ⟨hsn, hsm⟩
+  exact key (start, start, none) ⟨hsn, hsm⟩
 
 theorem rect_swapRows (mat : Mat) (n m a b : Nat) (hR : Rect mat n m) (ha : a < n) (hb : b < n) :
     Rect (swapRows mat a b) n m := by
